@@ -59,7 +59,7 @@ def _initialize(
     """
     freq: Freq = {
         pos: {synset.id: smoothing for synset in wordnet.synsets(pos=pos)}
-        for pos in IC_PARTS_OF_SPEECH
+        for pos in sorted(IC_PARTS_OF_SPEECH)  # fixed key order
     }
     # pretend ADJ_SAT is just ADJ
     for synset in wordnet.synsets(pos=ADJ_SAT):
